@@ -92,6 +92,9 @@ type tClient struct {
 	txn    uint32
 	alloc  *tAlloc
 	closed bool
+	// hijacked: the client sent ConnectionBind on its control connection, which thereby became
+	// the data connection of a peer connection; the allocation lives until that pair ends
+	hijacked *tConn
 }
 
 // TWorld is the TCP-relay world.
@@ -370,6 +373,14 @@ func (x *TExec) userIdx(c *tClient, st *TStep) int {
 
 func (x *TExec) purge() {
 	now := time.Now()
+	for _, c := range x.w.clients {
+		if c.hijacked != nil && c.hijacked.gone {
+			// the pair that had taken over the control connection ended: the server closed the
+			// connection, and the allocation went with it
+			x.dropAlloc(c, "hijacked-control-connection-ended")
+			c.hijacked = nil
+		}
+	}
 	for _, a := range x.w.gone {
 		for _, tc := range a.conns {
 			if tc.orphan && !tc.gone && !now.Before(tc.deadline) {
